@@ -907,6 +907,7 @@ func runC06(c *Ctx) {
 	ruleJoinNoEarlyReturn(c, "C06.6")
 	ruleLookupKeys(c, "C06.7")
 	c05Layering(c, "C06.8")
+	ruleJoinReturnsBuiltRows(c, "C06.9")
 }
 
 func c06JoinMapping(c *Ctx, rule string) {
